@@ -67,6 +67,21 @@ def set_const_in_call(callee_suffix, arg, value):
     return fn
 
 
+def set_arg_of_call(callee_suffix, nth, arg, operand):
+    def fn(j):
+        k = 0
+        for bl in j["blocks"]:
+            t = bl["t"]
+            if t["k"] == "call" and (t.get("callee") or "").endswith(callee_suffix):
+                if k == nth:
+                    t["args"][arg] = operand
+                    return
+                k += 1
+        raise ControlSkipped("no call to *%s in %s" % (callee_suffix, j["id"]))
+
+    return fn
+
+
 def swap_args_of_calls(callee_suffix):
     """swap the first operands of the first two calls to callee (e.g. the two lock() calls)"""
 
@@ -121,6 +136,8 @@ CONTROLS = {
         ("W3: free-list mutator called from allocate", [("nomt::beatree::allocator::SyncAllocator::allocate", neutralise_call("FreeList::as_clean", 0, "nomt::beatree::allocator::free_list::FreeList::pop"))], "W3|"),
     ],
     "C18": [
+        ("T1: the next() driving the loop of hash_path neutralised", [("nomt_core::proof::path_proof::hash_path", neutralise_call("Iterator>::next"))], "T1|proof::path_proof::hash_path"),
+        ("T2: a recursive call of verify_range passes start_depth unchanged", [("nomt_core::proof::multi_proof::verify_range", set_arg_of_call("multi_proof::verify_range", 0, 0, {"k": "copy", "pl": {"l": 1}}))], "T2|"),
         ("inventory: a new unwrap appears", [("nomt_core::proof::path_proof::hash_path", neutralise_call("::rev", 0, "core::option::Option::unwrap"))], "panicfree|proof::path_proof::hash_path|site|"),
     ],
     "C20": [
